@@ -89,7 +89,13 @@ pub async fn execute_absent_target<S: Runtime + 'static>(
     let mut xtrace = XTrace::from_options(&env.options);
     let assignment_exit_status = perform_assignments(env, assigns, false, xtrace.as_mut()).await?;
     print(env, xtrace).await;
-    env.exit_status = assignment_exit_status.unwrap_or(redir_exit_status);
+    // A failure in the redirection subshell must not be masked by the exit
+    // status of a command substitution in the assignments.
+    let redir_failed = !redirs.is_empty() && !redir_exit_status.is_successful();
+    env.exit_status = match assignment_exit_status {
+        Some(exit_status) if !redir_failed => exit_status,
+        _ => redir_exit_status,
+    };
     Continue(())
 }
 
